@@ -114,7 +114,7 @@ The file is `known_findings.json`; nothing is added to it at run time.
 
 SEEDS_INTRO = """Each change was written by a fresh sub-agent that saw only the property text and its own scratch worktree, confirmed by
 `tools/confirm_seed.sh` (demonstration passes on the pristine tree, fails with the patch, no new failure in the pinned suite) and stored under
-`seeded/<id>/`. Twelve rounds so far, 433 stored changes (the number is recomputed below from the directory). The share a round's first sweep missed stayed between a quarter and 40 per cent up to the last round: the agents are told what was already taken, so every round comes through new entry points, input types and object lifetimes - which is the reason to keep running rounds rather than a sign that the checks do not improve. `tools/psweep.sh` applies every stored change to a scratch copy of /repo (several in parallel; `tools/seedsweep.sh`
+`seeded/<id>/`. Thirteen rounds so far, 433 stored changes (the number is recomputed below from the directory). The share a round's first sweep missed stayed between a quarter and 40 per cent up to the last round: the agents are told what was already taken, so every round comes through new entry points, input types and object lifetimes - which is the reason to keep running rounds rather than a sign that the checks do not improve. `tools/psweep.sh` applies every stored change to a scratch copy of /repo (several in parallel; `tools/seedsweep.sh`
 does the same on /repo's working tree, one at a time), runs the owning check and removes the copy; at the time of writing every stored change is
 reported as VIOLATION by the quick tier of its check, with a failing input replayed on the real code. Where a check first missed a change it was
 strengthened - the generator was the gap nearly every time, an oracle clause a few times; no oracle was loosened:
@@ -221,6 +221,15 @@ strengthened - the generator was the gap nearly every time, an oracle clause a f
   credentials composed twice; C17 the parameters handed over as text, request-targets that are not normal forms (`/%7Euser`, `/x?`); C18 a status handed from
   one response to another (same code, other phrase); C19 an empty quoted parameter value in a later list element, language ranges with digits; C20 one `Body`
   object handed to two exchanges.
+
+* round 13 (ids -24 .. -26; 13 of 40 missed at first): C01 transfer codings other than chunked (501 wherever the stream is cut); C04 a charset chosen through
+  `body.encoding` early in the run (an element cache shared between messages), responses composed against an HTTP/1.0 request; C08 one name twice in a constructor
+  argument, a field received twice with the same one-octet value; C10 internationalised hosts that contain a delimiter; C12 an escaped colon in the user
+  name (authority clause; a raw colon in the password is fine); C14 the form codec called without a charset; C15 `Date()` without argument and the Date of a
+  prepared response under every zone; C16 `repr()` of an element before composing it; C17 entity bodies of 4096 / 8192 octets, percent signs in the values
+  that enter the digest; C18 the hand-over through the constructor (`Response(protocol=request.protocol)`), instances of the status classes parsing another
+  status; C19 a weight written twice, weights with stray quotes. Two older changes were caught under one seed only (C03-20, before that C06-6 / C06-18): their
+  triggers are enumerated now, and the whole store is swept under two seeds.
 
 Stored patches are rebased when a `fix:` commit touches the same lines (noted in their notes.txt). Six changes are kept under `seeded/rejected/` and are not
 counted: C04-2, C12-1-superseded and C11-11 became harmless through the repairs F50 / F60 / F64 (their demonstrations pass with the patch applied); C06-9 and C07-10
